@@ -263,6 +263,8 @@ def r11_generic(db, ctx):
                 rows_param = c_[1]
             elif c_[0] == 'sub' and c_[2] == ('k', 0) and common.range_of_len(f, c_[1]) is not None:
                 rows_param = common.range_of_len(f, c_[1])      # 0..rows.len()  or  0..(rows.end - rows.start)
+            elif c_[0] == 'sub' and common.range_of_len(f, ('bin', 'Sub', c_[1], c_[2])) is not None:
+                rows_param = common.range_of_len(f, ('bin', 'Sub', c_[1], c_[2]))      # a cursor running over rows.start..rows.end
         start_ok = rows_param is not None and rest == X.lin(('fld', rows_param, 'start'))
         if not (l.get(pr) == 1 and l.get(pj) == 1 and start_ok):
             probs.append(f'sequence row is {X.show(bv["$row"], 120)}: expected (element of rows) + j')
@@ -436,6 +438,10 @@ def r14(db, ctx):
                         if len(l) == 2 and all(v == 1 for v in l.values()) and any(k.startswith('(') and 'DenseMatrix::rows' in k and 'wrap' in k for k in ks) and common.is_call_to(d[3], '::len'):
                             found = True
             if not found:
+                # iterator form: the counted cells come from a pipeline (possibly built by a private `impl Iterator` helper) that visits
+                # data[i][j] for i in 0..rows-wrap, every column j, and keeps a cell only under j*(rows - wrap) + i < len
+                found = _count_pipeline_ok(db, f)
+            if not found:
                 probs.append('no guard of the form j*(rows - wrap) + i < len')
         if probs:
             ctx.fail('R1.4', f, 'layout formula', '; '.join(probs))
@@ -458,6 +464,67 @@ def r14(db, ctx):
             ok = any('max_index' in s_ for s_ in sides) and any('DenseMatrix::rows' in s_ and 'DenseMatrix::columns' in s_ for s_ in sides)
     (ctx.ok if ok else ctx.fail)('R1.4', f, 'scores::Iter covers 0..min(max_index, rows*columns)', *([[]] if ok else ['iteration range is not 0..min(max_index, rows*columns)']))
     ctx.floor('R1.4', n, 6, 'layout conversion sites')
+
+
+def _count_pipeline_ok(db, f):
+    from lm import reduce as RD, iteralg as IA
+    R = X.Rec(f)
+    C = RD.RCanon(db, f, R)
+    data = ('fld', ('p', 1), 'data')
+    Rrows = ('bin', 'Sub', ('call', 'lightmotif::dense::DenseMatrix::rows', (data,)), ('fld', ('p', 1), 'wrap'))
+    is_cell = lambda x: m(('at', ('at', '$d', '$i'), '$j'), x) is not None and x[1][1] == data and IA.is_pos(x[1][2]) and IA.is_pos(x[2])
+    cells = []
+    # count_symbols: counts[cell.as_index()] += 1 in a loop over the pipeline (or in a for_each closure); count_symbol: pipeline.filter(..).count()
+    for s_ in X.stores(f, R):
+        tg = C.canon(s_['target'])
+        b = m(('at', '_', ('call~', 'as_index', ('$cell',))), tg)
+        if b is not None:
+            cells.append(b['$cell'])
+    for bi, t in f.calls():
+        if (f.callee_short(t) or '').endswith('Iterator::for_each') and len(t['args']) == 2:
+            e_ = norm(R.call(t))
+            L = RD._fresh()
+            el = C.elem_of(e_[2][0], L)
+            fv = RD.fn_value(e_[2][1])
+            g = db.fns.get(fv[1]) if fv and fv[0] == 'closure' else None
+            if el is None or g is None:
+                return False
+            C.extents[L] = el[1]
+            Rg = X.Rec(g)
+            for s_ in X.stores(g, Rg):
+                tg = C.canon(RD._subst(norm(s_['target']), {('p', 2): el[0]}))
+                b = m(('at', '_', ('call~', 'as_index', ('$cell',))), tg)
+                if b is not None:
+                    cells.append(b['$cell'])
+    e = common.return_expr_single_path_allow(f)
+    if e is not None:
+        red = RD.of_expr(C, norm(e))
+        if red is not None and red['op'] == 'count':
+            cs = [x for x in X.walk(red['term']) if is_cell(x)]
+            if cs:
+                cells.append(cs[0])
+    cells = [c_ for c_ in cells if is_cell(c_)]
+    if len(cells) != 1:
+        return False
+    cell = cells[0]
+    pi, pj = cell[1][2], cell[2]
+    ei, ej = C.extents.get(pi[1]), C.extents.get(pj[1])
+    rows_ok = bool(ei) and any(c_[0] == 'sub' and c_[2] == ('k', 0) and X.lin_eq(c_[1], Rrows) for c_ in ei) and \
+        all((c_[0] == 'sub' and c_[2] == ('k', 0) and X.lin_eq(c_[1], Rrows)) or c_ == ('rows', data) for c_ in ei)
+    cols_ok = ej in ([('len', ('at', data, pi))],) or (bool(ej) and len(ej) == 1 and ej[0][0] == 'sub' and ej[0][2] == ('k', 0) and
+                                                        (common.is_usize_const(ej[0][1], 'C') or common.is_call_on(ej[0][1], 'DenseMatrix::columns', data)))
+    if not (rows_ok and cols_ok):
+        return False
+    want = ('bin', 'Add', ('bin', 'Mul', pj, Rrows), pi)
+    for L, conds in C.filters.items():
+        for cnd in conds:
+            alts = G.expr_alternatives(cnd, True)
+            if len(alts) != 1:
+                continue
+            for rel in alts[0]:
+                if rel[0] == 'lt' and X.lin_eq(C.canon(rel[1]), want) and (common.is_call_on(rel[2], 'StripedSequence::len', ('p', 1)) or norm(rel[2]) == ('fld', ('p', 1), 'length')):
+                    return True
+    return False
 
 
 def r15(db, ctx):
